@@ -1,1 +1,285 @@
 // Kani harnesses compiled inside rs-matter/src/transport/network/btp/session/packet.rs (module `verif_kani`).
+
+mod c18 {
+    use super::*;
+
+    const F_H: u8 = 0x40;
+    const F_M: u8 = 0x20;
+    const F_A: u8 = 0x08;
+    const F_E: u8 = 0x04;
+    const F_C: u8 = 0x02;
+    const F_B: u8 = 0x01;
+    const KNOWN: u8 = F_H | F_M | F_A | F_E | F_C | F_B;
+
+    /// Reference: number of bytes of a header whose first byte is `f`.
+    fn ref_len(f: u8) -> usize {
+        let mut l = 1usize;
+        if f & F_M != 0 {
+            l += 1;
+        }
+        if f & F_A != 0 {
+            l += 1;
+        }
+        if f & F_H == 0 {
+            l += 1;
+            if f & F_B != 0 {
+                l += 2;
+            }
+        }
+        l
+    }
+
+    fn any_hdr() -> BtpHdr {
+        BtpHdr {
+            flags: BtpFlags::from_bits_truncate(kani::any()),
+            opcode: kani::any(),
+            ack_num: kani::any(),
+            seq_num: kani::any(),
+            msg_len: kani::any(),
+        }
+    }
+
+    /// Decoder totality + exact field positions, for ARBITRARY bytes of every length 0..=8.
+    /// The decoder pulls at most 6 bytes from its iterator (asserted), so longer inputs behave
+    /// exactly like their first 8 bytes: complete.
+    // TIER: quick
+    // KIND: complete
+    #[kani::proof]
+    fn c18_hdr_decode_total() {
+        let bytes: [u8; 8] = kani::any();
+        let n: usize = kani::any();
+        kani::assume(n <= 8);
+
+        let mut it = bytes[..n].iter();
+        let r = BtpHdr::from((&mut it).copied());
+        let consumed = n - it.as_slice().len();
+
+        let complete = n >= 1 && n >= ref_len(bytes[0]);
+        kani::assert(r.is_ok() == complete, "C18.hdr.decode_ok_iff_header_complete");
+        kani::assert(consumed <= 6, "C18.hdr.decode_reads_at_most_6_bytes");
+        match &r {
+            Ok(h) => {
+                let f = bytes[0];
+                kani::assert(consumed == ref_len(f), "C18.hdr.decode_consumes_exactly_header");
+                kani::assert(h.len() == consumed, "C18.hdr.len_is_wire_len");
+                kani::assert(h.flags.bits() == f & KNOWN, "C18.hdr.decode_flags");
+                kani::assert(h.is_handshake() == (f & F_H != 0), "C18.hdr.decode_handshake_flag");
+                kani::assert(h.is_final() == (f & F_E != 0), "C18.hdr.decode_final_flag");
+                kani::assert(h.is_continue() == (f & F_C != 0), "C18.hdr.decode_continue_flag");
+                let mut i = 1usize;
+                if f & F_M != 0 {
+                    kani::assert(h.get_opcode() == Some(bytes[i]), "C18.hdr.decode_opcode");
+                    i += 1;
+                } else {
+                    kani::assert(h.get_opcode().is_none(), "C18.hdr.decode_no_opcode");
+                }
+                if f & F_A != 0 {
+                    kani::assert(h.get_ack() == Some(bytes[i]), "C18.hdr.decode_ack");
+                    i += 1;
+                } else {
+                    kani::assert(h.get_ack().is_none(), "C18.hdr.decode_no_ack");
+                }
+                if f & F_H == 0 {
+                    kani::assert(h.get_seq() == Some(bytes[i]), "C18.hdr.decode_seq");
+                    i += 1;
+                    if f & F_B != 0 {
+                        let ml = bytes[i] as u16 | ((bytes[i + 1] as u16) << 8);
+                        kani::assert(h.get_msg_len() == Some(ml), "C18.hdr.decode_msg_len");
+                    } else {
+                        kani::assert(h.get_msg_len().is_none(), "C18.hdr.decode_no_msg_len");
+                    }
+                } else {
+                    kani::assert(h.get_seq().is_none() && h.get_msg_len().is_none(), "C18.hdr.decode_handshake_has_no_seq_len");
+                }
+            }
+            Err(e) => {
+                kani::assert(e.code() == ErrorCode::Invalid, "C18.hdr.decode_truncated_is_invalid");
+            }
+        }
+
+        kani::cover!(r.is_ok() && consumed == 6, "longest header");
+        kani::cover!(r.is_ok() && consumed == 1, "shortest header");
+        kani::cover!(r.is_err() && n > 0, "truncated header");
+        kani::cover!(r.is_err() && n == 0, "empty input");
+        kani::cover!(r.is_ok() && bytes[0] & !KNOWN != 0, "unknown flag bits");
+    }
+
+    /// encode ; decode = identity on every field that is on the wire, for every header value and
+    /// every output capacity 0..=8 (too small => NoSpace, never a panic).
+    // TIER: quick
+    // KIND: complete
+    #[kani::proof]
+    fn c18_hdr_encode_decode_roundtrip() {
+        let h = any_hdr();
+        let mut out: [u8; 8] = kani::any();
+        let cap: usize = kani::any();
+        kani::assume(cap <= 8);
+
+        let want = ref_len(h.flags.bits());
+        kani::assert(h.len() == want, "C18.hdr.len_is_reference_len");
+
+        let mut wb = WriteBuf::new(&mut out[..cap]);
+        let r = h.encode(&mut wb);
+        let tail = wb.get_tail();
+
+        kani::assert(r.is_ok() == (cap >= want), "C18.hdr.encode_ok_iff_room");
+        match r {
+            Ok(()) => {
+                kani::assert(tail == want, "C18.hdr.encode_writes_len_bytes");
+                let mut it = out[..tail].iter();
+                let d = BtpHdr::from((&mut it).copied());
+                kani::assert(d.is_ok(), "C18.hdr.reencoded_decodes");
+                if let Ok(d) = d {
+                    kani::assert(it.as_slice().is_empty(), "C18.hdr.redecode_consumes_all");
+                    kani::assert(d.flags == h.flags, "C18.hdr.roundtrip_flags");
+                    kani::assert(d.get_opcode() == h.get_opcode(), "C18.hdr.roundtrip_opcode");
+                    kani::assert(d.get_ack() == h.get_ack(), "C18.hdr.roundtrip_ack");
+                    kani::assert(d.get_seq() == h.get_seq(), "C18.hdr.roundtrip_seq");
+                    kani::assert(d.get_msg_len() == h.get_msg_len(), "C18.hdr.roundtrip_msg_len");
+                }
+            }
+            Err(ref e) => {
+                kani::assert(e.code() == ErrorCode::NoSpace, "C18.hdr.encode_short_buffer_is_nospace");
+            }
+        }
+
+        kani::cover!(r.is_ok() && want == 6, "longest header");
+        kani::cover!(r.is_ok() && h.is_handshake(), "handshake header");
+        kani::cover!(r.is_err(), "buffer too small");
+    }
+
+    /// decode ; encode reproduces the received bytes (unknown flag bits dropped).
+    // TIER: quick
+    // KIND: complete
+    #[kani::proof]
+    fn c18_hdr_decode_encode_roundtrip() {
+        let bytes: [u8; 8] = kani::any();
+        let mut it = bytes.iter();
+        let h = BtpHdr::from((&mut it).copied());
+        // 8 bytes always hold a complete header
+        kani::assert(h.is_ok(), "C18.hdr.decode_8_bytes_ok");
+        if let Ok(h) = h {
+            let mut out = [0u8; 8];
+            let mut wb = WriteBuf::new(&mut out);
+            let r = h.encode(&mut wb);
+            let tail = wb.get_tail();
+            kani::assert(r.is_ok() && tail == h.len(), "C18.hdr.reencode_ok");
+            let i: usize = kani::any();
+            kani::assume(i < tail);
+            let expect = if i == 0 { bytes[0] & KNOWN } else { bytes[i] };
+            kani::assert(out[i] == expect, "C18.hdr.reencode_same_bytes");
+            kani::cover!(i == 5, "last byte of the longest header");
+        }
+    }
+
+    /// The setters used by the sender produce exactly the getters' view (used by prep_tx_*).
+    // TIER: quick
+    // KIND: complete
+    #[kani::proof]
+    fn c18_hdr_setters() {
+        let seq: u8 = kani::any();
+        let ack: Option<u8> = kani::any();
+        let ml: Option<u16> = kani::any();
+        let cont: bool = kani::any();
+        let fin: bool = kani::any();
+
+        let mut h = BtpHdr::new();
+        h.set_seq(Some(seq));
+        h.set_ack(ack);
+        if let Some(ml) = ml {
+            h.set_msg_len(Some(ml));
+        }
+        if cont {
+            h.set_continue();
+        }
+        if fin {
+            h.set_final();
+        }
+        kani::assert(!h.is_handshake() && h.get_opcode().is_none(), "C18.hdr.data_hdr_is_not_handshake_or_mgmt");
+        kani::assert(h.get_seq() == Some(seq), "C18.hdr.set_seq");
+        kani::assert(h.get_ack() == ack, "C18.hdr.set_ack");
+        kani::assert(h.get_msg_len() == ml, "C18.hdr.set_msg_len");
+        kani::assert(h.is_continue() == cont && h.is_final() == fin, "C18.hdr.set_continue_final");
+        kani::assert(h.len() <= 5, "C18.hdr.data_hdr_at_most_5_bytes");
+
+        let mut hs = BtpHdr::new();
+        hs.set_handshake();
+        hs.set_opcode(Some(0x6c));
+        kani::assert(
+            hs.is_handshake() && hs.is_final() && hs.get_opcode() == Some(0x6c) && hs.get_seq().is_none()
+                && hs.get_ack().is_none() && hs.get_msg_len().is_none() && !hs.is_continue() && hs.len() == 2,
+            "C18.hdr.handshake_hdr_shape"
+        );
+        kani::cover!(ack.is_some() && ml.is_some(), "ack + beginning");
+    }
+
+    /// Handshake request payload: decoder totality (arbitrary bytes, every length 0..=9) and round trip.
+    // TIER: quick
+    // KIND: complete
+    #[kani::proof]
+    fn c18_handshake_req_codec() {
+        let bytes: [u8; 9] = kani::any();
+        let n: usize = kani::any();
+        kani::assume(n <= 9);
+        let r = HandshakeReq::from(bytes[..n].iter().copied());
+        kani::assert(r.is_ok() == (n >= 7), "C18.hsreq.decode_ok_iff_7_bytes");
+        match r {
+            Ok(q) => {
+                kani::assert(q.versions == u32::from_le_bytes([bytes[0], bytes[1], bytes[2], bytes[3]]), "C18.hsreq.decode_versions");
+                kani::assert(q.mtu == (bytes[4] as u16 | ((bytes[5] as u16) << 8)), "C18.hsreq.decode_mtu");
+                kani::assert(q.window_size == bytes[6], "C18.hsreq.decode_window");
+                let mut out = [0u8; 9];
+                let cap: usize = kani::any();
+                kani::assume(cap <= 9);
+                let mut wb = WriteBuf::new(&mut out[..cap]);
+                let e = q.encode(&mut wb);
+                let tail = wb.get_tail();
+                kani::assert(e.is_ok() == (cap >= 7), "C18.hsreq.encode_ok_iff_room");
+                if e.is_ok() {
+                    let i: usize = kani::any();
+                    kani::assume(i < 7);
+                    kani::assert(tail == 7 && out[i] == bytes[i], "C18.hsreq.reencode_same_bytes");
+                }
+                kani::cover!(e.is_err(), "req buffer too small");
+            }
+            Err(e) => kani::assert(e.code() == ErrorCode::Invalid, "C18.hsreq.decode_truncated_is_invalid"),
+        }
+        kani::cover!(n == 7, "exact request");
+        kani::cover!(n < 7, "truncated request");
+    }
+
+    /// Handshake response payload: decoder totality (arbitrary bytes, every length 0..=6) and round trip.
+    // TIER: quick
+    // KIND: complete
+    #[kani::proof]
+    fn c18_handshake_resp_codec() {
+        let bytes: [u8; 6] = kani::any();
+        let n: usize = kani::any();
+        kani::assume(n <= 6);
+        let r = HandshakeResp::from(bytes[..n].iter().copied());
+        kani::assert(r.is_ok() == (n >= 4), "C18.hsresp.decode_ok_iff_4_bytes");
+        match r {
+            Ok(q) => {
+                kani::assert(q.version == bytes[0], "C18.hsresp.decode_version");
+                kani::assert(q.mtu == (bytes[1] as u16 | ((bytes[2] as u16) << 8)), "C18.hsresp.decode_mtu");
+                kani::assert(q.window_size == bytes[3], "C18.hsresp.decode_window");
+                let mut out = [0u8; 6];
+                let cap: usize = kani::any();
+                kani::assume(cap <= 6);
+                let mut wb = WriteBuf::new(&mut out[..cap]);
+                let e = q.encode(&mut wb);
+                let tail = wb.get_tail();
+                kani::assert(e.is_ok() == (cap >= 4), "C18.hsresp.encode_ok_iff_room");
+                if e.is_ok() {
+                    let i: usize = kani::any();
+                    kani::assume(i < 4);
+                    kani::assert(tail == 4 && out[i] == bytes[i], "C18.hsresp.reencode_same_bytes");
+                }
+                kani::cover!(e.is_err(), "resp buffer too small");
+            }
+            Err(e) => kani::assert(e.code() == ErrorCode::Invalid, "C18.hsresp.decode_truncated_is_invalid"),
+        }
+        kani::cover!(n == 4, "exact response");
+        kani::cover!(n < 4, "truncated response");
+    }
+}
